@@ -26,11 +26,24 @@ PROPS = {
         technique='contract-based deductive verification (Verus: exec code refines a spec decoder, format lemmas by induction, allocation-budget preconditions; Kani full-domain scalar harness)',
         design_ref='DESIGN.md §4 C25',
     ),
+    'C17': dict(
+        title='Any log tail is tolerated on open',
+        kani=[],
+        verus=['c17_wal'],
+        pairs={},
+        native={'next_record': ['c17_tail_big_len', 'c17_tail_zero_fill', 'c17_tail_garbage', 'c17_truncate_every_byte'],
+                'try_read_u32': ['c17_tail_garbage', 'c17_truncate_every_byte'],
+                'append': ['c17_commit_after_tail', 'c17_truncate_every_byte'],
+                'replay_committed_from_path': ['c17_truncate_every_byte', 'c17_tail_garbage']},
+        level_text='Proof for every log length and every tail, over a trusted file model: Verus proves the real WalReader::{try_read_u32,next_record} return a record exactly when a complete (length-limited, checksummed, decodable) frame starts at the read position and otherwise end the log without error; proves Wal::replay_committed_from_path returns exactly the committed-transaction fold of the records of the valid run; proves Wal::append places the new record right after the last complete record whatever tail the file had (so it is the next record every later reader sees) and never damages earlier records even when it fails; and proves the log-level lemmas: any bytes that do not start a complete frame after a run of frames leave the records unchanged, pure truncation inside a frame drops exactly that frame, committed transactions of a prefix are a prefix of the committed transactions.',
+        level_note='Trusted: file model (File = bytes + position; read_exact/write_all/set_len/seek/metadata as specified in _file_model.rs/_file_ops.rs; fsync, rename and directory durability are not modelled), crc32 as an uninterpreted function, decode_body as a deterministic function whose agreement with the format is proved in unit c25_wal, single writer per file (C10 assumed). Not decided: GraphEngine::open/commit orchestration (how replayed transactions are applied to the page store), Wal::rewrite_as_snapshot. Verus gives no counterexample and Kani cannot ingest file I/O: on a failed obligation the driver runs native witness classes (replay-runner: every truncation point, zero fill, oversized length, garbage, commit-after-tail) against the tree under test and attaches the first that reproduces.',
+        technique='contract-based deductive verification (Verus contracts on extracted WAL reader/appender/replay over a file model + inductive log lemmas)',
+        design_ref='DESIGN.md §4 C17',
+    ),
 }
 
 # claimed in DESIGN.md but whose check is not built yet: listed under not_applicable until it is
 PENDING = {
-    'C17': 'check under construction (claimed in DESIGN.md §4; will move to checks when its units are committed)',
     'C18': 'check under construction (claimed in DESIGN.md §4; will move to checks when its units are committed)',
     'C20': 'check under construction (claimed in DESIGN.md §4; will move to checks when its units are committed)',
     'C23': 'check under construction (claimed in DESIGN.md §4; will move to checks when its units are committed)',
